@@ -145,7 +145,7 @@ loop:
 	for i, c := range content[1:] {
 		switch c {
 		case '\\':
-			escaped = !escaped
+			escaped = true
 
 		case '/':
 			if !escaped {
